@@ -237,8 +237,14 @@ def run_systems(ctx, systems, say=True):
             # solve / inv_quad use the operator's own (here: no) preconditioner, so they are the direct call only for the
             # cells without one; _solve takes the preconditioner closure as an argument
             entries = ["_solve"] + (["inv_quad", "solve"] if spec.get("pre", "none") == "none" else [])
+            dbgs = (True, False)
+            if spec["op"] == "limits":
+                # limits-from-settings cells: the routes that tridiagonalise as well; raise-or-not is what is observed
+                # (_solve without tridiagonalisation is the direct call only when that call has n_tridiag = 0)
+                entries = ["_solve_tri", "inv_quad_logdet"] + ([] if spec.get("n_tridiag") else ["_solve"])
+                dbgs = (True,)
             for entry in entries:
-                for dbg in (True, False):
+                for dbg in dbgs:
                     obs_o = S.run_op(sp_l, T, entry, dbg)
                     cnt["impl_calls"] += 1
                     cnt["op_calls"] = cnt.get("op_calls", 0) + 1
